@@ -47,6 +47,11 @@ def write(run, spec, ded, bnd):
         "assumptions": spec.get("assumptions", []) + [
             "PyVC's encoding of Python (spec/prelude.smt2, pyvc/*.py) is the author's model of CPython semantics, cross-checked only by replay and the bounded tier",
             "integers are mathematical; finite floats are exact rationals in comparison-only code",
+            "closed world: the classes of statham's own modules are all the classes there are (user subclasses overriding methods are outside the proofs)",
+            "specification functions of an object (sem, build, dflt, validators_of, csem, cbuild, ann, item_anns) are functions of the object between writes: "
+            "the configuration of elements does not change during a validation call (C13/C14 check re-configuration between calls separately)",
+        ] + [f"unchecked in this run: {t}" for t in ded["trusted_base"]] + [
+            f"undecided in this run (neither proved nor refuted): {u['obligation']}" for u in ded["undecided"][:40]
         ],
         "wall_s": round(time.time() - run.t0, 2),
         "violations": len(run.violations),
